@@ -143,6 +143,7 @@ type ctx struct {
 	sites   []string // instrumented sites
 	t0      time.Time
 	buildS  float64
+	selfN   int
 }
 
 func goEnv() []string {
@@ -738,6 +739,7 @@ func main() {
 	seedFlag := flag.Int64("seed", -1, "batch seed (default $VERIF_SEED or 1)")
 	keep := flag.Bool("keep", false, "keep the scratch directory")
 	runsFlag := flag.Int("runs", 0, "override number of runs")
+	selfN := flag.Int("selftest", 0, "determinism self-test only: run this many indices at GOMAXPROCS 1, 4, 16 and 4 again and compare event-log hashes")
 	flag.Parse()
 	if flag.NArg() < 1 {
 		die(2, "usage: check [-replay file] [-seed N] <property> [quick|thorough]")
@@ -774,6 +776,7 @@ func main() {
 	if spec.Cpu == 0 {
 		spec.Cpu = 4
 	}
+	c.selfN = *selfN
 	code := c.mainFlow(*replay, *keep)
 	os.Exit(code)
 }
@@ -796,6 +799,13 @@ func (c *ctx) mainFlow(replay string, keep bool) int {
 		return c.replayFlow(replay)
 	}
 
+	if c.selfN > 0 {
+		code := c.determinismN(c.selfN, []int{1, 4, 16, 4})
+		if code == 0 {
+			fmt.Printf("selftest %s: %d runs x GOMAXPROCS {1,4,16,4}: identical event logs\n", c.spec.ID, c.selfN)
+		}
+		return code
+	}
 	// determinism smoke test: same seeds at two GOMAXPROCS values must give identical logs
 	if code := c.determinism(); code != 0 {
 		return code
@@ -979,10 +989,13 @@ func (c *ctx) determinism() int {
 	if c.ts.Runs < n {
 		n = c.ts.Runs
 	}
-	type key struct{ idx int }
+	return c.determinismN(n, []int{1, 16})
+}
+
+func (c *ctx) determinismN(n int, cpus []int) int {
 	var first map[int]string
-	for _, cpu := range []int{1, 16} {
-		wo := c.worker(100+cpu, 0, n, cpu, 5*time.Minute)
+	for rep, cpu := range cpus {
+		wo := c.worker(100+rep, 0, n, cpu, 10*time.Minute)
 		if wo.openIdx >= 0 {
 			// a process-level violation inside the smoke sample is handled by the search phase
 			return 0
@@ -1015,7 +1028,7 @@ func (c *ctx) determinism() int {
 				continue
 			}
 			if cur[idx] != h {
-				fmt.Fprintf(os.Stderr, "check: determinism self-test failed for %s run %d: GOMAXPROCS=1 gives %s, GOMAXPROCS=16 gives %s\n", c.spec.ID, idx, h, cur[idx])
+				fmt.Fprintf(os.Stderr, "check: determinism self-test failed for %s run %d: GOMAXPROCS=%d gives %s, GOMAXPROCS=%d gives %s\n", c.spec.ID, idx, cpus[0], h, cpu, cur[idx])
 				return 2
 			}
 		}
